@@ -132,7 +132,7 @@ def run(args):
     pool = C.Pool(C.build_worker())
     srcs = operator_grid() + misc_programs() + container_grid()
     fam = Fam.template_programs() + Fam.capture_programs() + Fam.lambda_programs() + Fam.singleton_programs() + Fam.closure_programs() + \
-        Fam.nestings(2, rnd, sample=120) + Fam.random_programs(600 if thorough else 150, C.seed() + 7)
+        Fam.nestings(2, rnd, sample=600) + Fam.random_programs(600 if thorough else 150, C.seed() + 7)
     for p in fam:
         srcs.append(("family " + p["feats"]["family"] + (" " + p["feats"]["variant"] if "variant" in p["feats"] else ""), P.render(p)[0]))
     limits = LIMITS if thorough else [LIMITS[1], LIMITS[3]]
